@@ -12,7 +12,7 @@
     per call); [fuel] bounds the recursion depth of [process_pending], [no_oof] = it was enough;
     [grounded del x] = x was delivered with a dependency list all of whose members are grounded. *)
 From Coq Require Import List Arith NArith Permutation.
-From PV Require Import Model.Orderer Proofs.OrdererBase Proofs.OrdererSafety Proofs.Orderer.
+From PV Require Import Model.Orderer Proofs.OrdererBase Proofs.OrdererSafety Proofs.Orderer Oracle.C11 Proofs.OrdererOracle.
 Import ListNotations.
 
 (** Safety: every release of [x] is preceded by a delivery of [x] with a dependency list all of
@@ -81,3 +81,12 @@ Theorem C11_count_refuted :
   exists s ds, PK s /\ (forall d, In d ds -> is_ready s d = true) /\ ready_asis s ds = false.
 Proof. exact ready_asis_counterexample. Qed.
 Print Assumptions C11_count_refuted.
+
+(** The oracle evaluated on the implementation's observations is sound for the safety half: an
+    accepted observation is a trace in which every release comes after its dependencies. *)
+Theorem C11_oracle_sound :
+  forall ops outs, check ops outs = true ->
+    forall pre x post, events_of ops outs = pre ++ ERel x :: post ->
+      exists ds, In (EDel x ds) pre /\ forall d, In d ds -> In (ERel d) pre.
+Proof. exact check_sound. Qed.
+Print Assumptions C11_oracle_sound.
